@@ -571,3 +571,7 @@ def run(ctx):
                       "listed field cannot match on a later one", leaves[0].ast if leaves and leaves[0].ast is not None else rd,
                       "a missing field continues with the next field", key=f"R8.5:{fn.name}:missing-field-ends-loop")
     ctx.floor("R8.5", "helper functions looping over field names", looping, 3)
+
+    # ------------------------------------------------------------------ R8.8 (sibling rule) a plain JSON line has the fields of THAT line
+    ctx.import_rule("C14", "R14.5", "R8.8", "whether a field is missing is decided per record: the descriptor of a descriptor-less JSON line derives from that line alone")
+
